@@ -142,8 +142,10 @@ def case_st(draw):
     if pl.get("attempt_hooks") == "policy":
         pl["attempt_hooks"] = "call"
     # async-only callback flavours do not exist on sync entry points; compare like with like
-    pl["sleeper_flavour"] = "async"
-    pl["before_flavour"] = "async"
+    # (sync entry points always get plain functions; async ones get any of the async callback shapes,
+    # which must all behave like the sync twin)
+    pl["sleeper_flavour"] = draw(st.sampled_from(["async", "async", "awaitable", "awaitable_obj", "sync"]))
+    pl["before_flavour"] = draw(st.sampled_from(["async", "async", "awaitable", "awaitable_obj", "sync"]))
     case["placement"] = pl
     grp = draw(st.sampled_from(["plain"] * 6 + ["breaker"] * 3 + ["noretry"]))
     if grp != "plain":
